@@ -5,7 +5,7 @@ from . import tok_common, nf_common
 
 MANIFEST = {
     "text": "Translation validation: the tokenizer's transition function (73 concrete states x exact character partition x guard valuations), its helper methods and the character-reference sub-tokenizer are extracted from the source and compared pointwise with a reference reviewed against the WHATWG tokenization section. Right level because the property is 'equals a table-driven algorithm': agreement of tables is decidable from the code, behaviour on strings is not sampled at all. Independently (R01.5) the extracted machine is checked bisimilar - big-step over reconsume chains, effects per channel, successor states related, the code's skipped states added to the relation - to a transcription of the WHATWG state machine written as data from the standard (ref/whatwg_tokenizer.py).",
-    "note": "Decides: code tables == reviewed tables (R01.1-R01.4) and code machine ~ transcribed WHATWG machine (R01.5, 18 379 big steps). Trusted: my memory of the standard behind both the review and the transcription (no offline copy), rustc macro expansion, syn, BufferQueue/StrTendril/LocalName primitives, the sink. Not decided: tree construction, primitives' arithmetic, parse errors (outside C01). Round 6: finish_attribute empties both attribute buffers on every path (R01.7). Round 8: the character reference states against a transcription of the standard (R01.8 = R14.12), SIMD stop set (R01.9 = R08.2), input stream preprocessing as a transcription (R01.10 = R03.16), no attribute value without a name (R01.11), end() runs the machine before eof_step (R01.6).",
+    "note": "Decides: code tables == reviewed tables (R01.1-R01.4) and code machine ~ transcribed WHATWG machine (R01.5, 18 379 big steps). Trusted: my memory of the standard behind both the review and the transcription (no offline copy), rustc macro expansion, syn, BufferQueue/StrTendril/LocalName primitives, the sink. Not decided: tree construction, primitives' arithmetic, parse errors (outside C01). Round 6: finish_attribute empties both attribute buffers on every path (R01.7). Round 8: the character reference states against a transcription of the standard (R01.8 = R14.12), SIMD stop set (R01.9 = R08.2), input stream preprocessing as a transcription (R01.10 = R03.16), no attribute value without a name (R01.11), end() runs the machine before eof_step (R01.6). R01.12: emit the current tag token / appropriate end tag token as a transcription.",
     "technique": "decision-tree flattening of the macro-expanded source; pointwise comparison with a reviewed reference table; bisimulation with an independent transcription of the standard's state machine",
 }
 LEVEL = "translation_validation"
